@@ -224,6 +224,12 @@ func TestVerifBounded_C06_Gateway(t *testing.T) {
 		`{ users { __typename id device { __typename id } } }`,
 		`{ things { __typename ... on C06User { id name } ... on C06Device { id label } } }`,
 		`{ things { ... on C06Device { label } } }`,
+		// one member fragment with a field of the other service below it, while the data holds other members too
+		`{ things { ... on C06User { id name } } }`,
+		`{ things { __typename ... on C06User { name badge } } }`,
+		// fragments whose type condition is the union itself (named and inline, nested)
+		`{ things { ...T } } fragment T on C06Thing { __typename ... on C06User { id name } ... on C06Device { label } }`,
+		`{ things { ... on C06Thing { __typename ... on C06Device { id label } ... on C06User { name } } } }`,
 		`mutation { newUser(name: "zed") { id name } }`,
 		`mutation { newUser(name: "zed") { id name badge } }`,
 		`mutation { newUser(name: "yo") { name device { label } friends { id badge } } }`,
